@@ -22,6 +22,65 @@ def new_solver(timeout_ms, opts=None):
     return s
 
 
+def cvc5_check(assertions, vars, timeout_ms):
+    """Second back end for obligations z3 leaves undecided (bit-vector / floating-point kernels):
+    returns ("sat", {name: int}) | ("unsat", None) | ("unknown", None).  The query is z3's own SMT-LIB rendering."""
+    try:
+        import cvc5
+    except ImportError:
+        return "unknown", None
+    s = z3.Solver()
+    s.add(*assertions)
+    text = s.to_smt2().replace("(check-sat)", "")
+    import tempfile
+    with tempfile.NamedTemporaryFile("w", suffix=".smt2", delete=False) as f:
+        f.write("(set-logic ALL)\n" + text + "\n(check-sat)\n")
+        path = f.name
+    try:
+        slv = cvc5.Solver()
+        slv.setOption("tlimit-per", str(int(timeout_ms)))
+        slv.setOption("produce-models", "true")
+        ip = cvc5.InputParser(slv)
+        ip.setFileInput(cvc5.InputLanguage.SMT_LIB_2_6, path)
+        sm = ip.getSymbolManager()
+        verdict = "unknown"
+        while True:
+            cmd = ip.nextCommand()
+            if cmd.isNull():
+                break
+            out = str(cmd.invoke(slv, sm)).strip()
+            if out in ("sat", "unsat", "unknown"):
+                verdict = out
+            elif "error" in out:
+                return "unknown", None
+        if verdict != "sat":
+            return verdict, None
+        vals = {}
+        for name, v in vars.items():
+            t = sm.getNamedTerms().get(name) if hasattr(sm, "getNamedTerms") else None
+            found = None
+            for dt in sm.getDeclaredTerms():
+                if str(dt) == name:
+                    found = dt
+            if found is None:
+                return "unknown", None
+            mv = slv.getValue(found)
+            k = v.sort().kind()
+            if k == z3.Z3_BV_SORT:
+                vals[name] = int(mv.getBitVectorValue(10))
+            elif k == z3.Z3_INT_SORT:
+                vals[name] = int(mv.getIntegerValue())
+            elif k == z3.Z3_BOOL_SORT:
+                vals[name] = bool(mv.getBooleanValue())
+            else:
+                return "unknown", None
+        return "sat", vals
+    except Exception:  # noqa: BLE001  (a back-end problem is an inconclusive answer, never a verdict)
+        return "unknown", None
+    finally:
+        os.unlink(path)
+
+
 class Ob:
     """One proof obligation raised at the end of a path.
     id: semantic name; term: z3 Bool that must hold for all values on the path;
@@ -191,6 +250,7 @@ class HResult:
         self.aborted = 0
         self.wall_s = 0.0
         self.pin_chains_cut = 0
+        self.cvc5_queries = 0
 
     def to_dict(self):
         d = dict(self.__dict__)
@@ -293,13 +353,29 @@ def explore(h, known=None, collect_validation=2, profile_root=None):
                 if r2 == "unsat":
                     res.discharged += 1
                     break
+                from_cvc5 = False
+                if r2 != "sat" and getattr(h, "cvc5_ms", 0) and not excl:
+                    # second back end (cvc5) for kernels z3 leaves undecided
+                    t0 = time.time()
+                    r3, cvals = cvc5_check(pre + pc + [z3.Not(ob.term)], h.vars, h.cvc5_ms)
+                    res.solver_s += time.time() - t0
+                    res.queries += 1
+                    res.cvc5_queries += 1
+                    if r3 == "unsat":
+                        res.discharged += 1
+                        break
+                    if r3 == "sat":
+                        r2, wvals, from_cvc5 = "sat", cvals, True
                 if r2 != "sat":
                     res.unknown += 1
                     clean_path = False
                     break
-                m2 = s2.model()
-                wvals = model_values(m2, h.vars)
-                hits = known.match(ob, m2, allvars) if known else []
+                if from_cvc5:
+                    hits = []
+                else:
+                    m2 = s2.model()
+                    wvals = model_values(m2, h.vars)
+                    hits = known.match(ob, m2, allvars) if known else []
                 clean_path = False
                 if hits:
                     for e, both in hits:
